@@ -11,14 +11,6 @@ NAME = 'comments_doc'
 C = 'harper-comments/src/comment_parsers/'
 
 STUBS = '''
-// harper_html::HtmlParser: another front-end; all that is used here is the Parser contract
-pub struct HtmlParser { pub _p: u8 }
-impl Parser for HtmlParser {
-    open spec fn sp_det(&self) -> bool { false }
-    open spec fn sp_parse(&self, source: Seq<char>) -> Seq<Token> { Seq::empty() }
-    #[verifier::external_body]
-    fn parse(&self, source: &[char]) -> (r: Vec<Token>) { unimplemented!() }
-}
 // derive(Is) predicates of TokenKind used by the block-tag loop: arbitrary total bools
 impl TokenKind {
     #[verifier::external_body] pub fn is_at(&self) -> bool { unimplemented!() }
@@ -162,5 +154,29 @@ def build(repo):
     U.impl(C + 'jsdoc.rs', 'impl Parser for JsDoc', {'parse': JSDOC_PARSE}, extra_members=SP_MEMBERS)
     U.item(C + 'javadoc.rs', 'struct JavaDoc', derive=())
     U.impl(C + 'javadoc.rs', 'impl Parser for JavaDoc', {'parse': JAVADOC_PARSE}, extra_members=SP_MEMBERS)
+    # harper-html: HtmlParser::parse = masked plain-English parse, then every Space token's count clamped to 0..=1 (spans untouched)
+    U.raw('''
+pub mod parsers {
+    use super::*;
+    // parsers::Mask<TreeSitterMasker, PlainEnglish>: proved composition (unit mask_parser) over a tree-sitter masker; here only its Parser contract is used
+    pub struct Mask<M, P> { pub masker: M, pub parser: P }
+    impl<M, P> Parser for Mask<M, P> {
+        open spec fn sp_det(&self) -> bool { false }
+        open spec fn sp_parse(&self, source: Seq<char>) -> Seq<Token> { Seq::empty() }
+        #[verifier::external_body]
+        fn parse(&self, source: &[char]) -> (r: Vec<Token>) { unimplemented!() }
+    }
+}
+pub struct TreeSitterMasker { pub _p: u8 }
+pub struct PlainEnglish;
+''', name='assumed:html-inner')
+    H = 'harper-html/src/lib.rs'
+    U.item(H, 'struct HtmlParser', derive=())
+    U.impl(H, 'impl Parser for HtmlParser', {'parse': dict(
+        result='r', props=['C01', 'C02', 'C04'],
+        loops={1: dict(desugar='R8', invariant=['same_spans(tokens@, t0)'], decreases='tokens@.len() - __i')},
+        proofs=[dict(after='let mut tokens', kind='ghost', text='let ghost t0 = tokens@;'),
+                dict(before='tokens', text='lemma_same_spans_ok(tokens@, t0, source@.len() as int);')])},
+        extra_members=SP_MEMBERS)
     U.raw(common.FOOTER)
     return U
